@@ -336,6 +336,17 @@ func checkC14(c *km.Ctx) {
 		}}
 		notLocked := km.Prim{Name: "not locked out", Direct: func(f km.Fact) bool {
 			cl, ok := f.X.(*ssa.Call)
+			// time.Until(lockoutExpirationTime) <= 0 / time.Since(lockoutExpirationTime) >= 0
+			if ok && f.Y != nil && len(cl.Common().Args) == 1 && mentionsField(cl.Common().Args[0], "lockoutExpirationTime") {
+				if z, isZ := km.ConstInt(f.Y); isZ && z == 0 {
+					switch km.CalleeFull(cl.Common()) {
+					case "time.Until":
+						return f.Op == token.LEQ
+					case "time.Since":
+						return f.Op == token.GEQ
+					}
+				}
+			}
 			if f.Op != token.ILLEGAL || f.Pol || !ok {
 				return false
 			}
